@@ -10,7 +10,8 @@ replays the history on it and judges every result the IMPLEMENTATION printed.
 import hashlib
 
 ID = "C08"
-RULE = ("ASYNC cases (about 10 %): Keep writes of background flushes parked and released by explicit ops so that "
+RULE = ("FOCUS cases (about 13 %): 2-4 read-write handles on one file with stored segments, small reads and writes "
+        "alternating between the handles with hardly any seeks; ASYNC cases (about 16 %): Keep writes of background flushes parked and released by explicit ops so that "
         "flushes land at arbitrary later points (results compared, shapes not); otherwise: op sequences (quick 10-150, thorough 10-400 ops) over <=6 names / 3 directory levels / <=4 handles "
         "per file, write/truncate sizes 0..3 blocks, maxBlockSize in {1,2,3,4,7,8,16,64} (+ a few smoke cases "
         "at the production 64 MiB), explicit flush/sync sprinkled in, starting from empty or a generated "
@@ -755,18 +756,151 @@ def _gen_case(rng, tier, maxb=None, nops=None, selfrename=False, async_=False):
     return "fs %d %s %s" % (maxb, man, ";".join(ops + tail))
 
 
+def _gen_focus_case(rng, tier):
+    """FOCUS case: several read-write handles on ONE file that has stored segments (from the manifest or
+    an early sync), used alternately with small reads and writes and hardly any seeks — so every handle's
+    cached (segmentIdx, segmentOff) stays "current" while the other handles split, grow, drop and flush
+    segments: the pointer-revalidation class (repacked counter, seek fast path)."""
+    maxb = rng.choice([2, 3, 4, 4, 7, 8, 8, 16])
+    nblocks = rng.choice([1, 2, 3])
+    blocks = [bytes(rng.getrandbits(8) for _ in range(rng.choice([3, 5, 8, 13, 20]))) for _ in range(nblocks)]
+    total = sum(len(b) for b in blocks)
+    name = _name(rng)
+    man = "-"
+    ops = []
+    fs = PlainFS()
+    if rng.random() < 0.7:
+        o = rng.randint(0, total // 3)
+        man = ".~%s~%d:%d:%s" % (",".join(b.hex() for b in blocks), o, total - o, name)
+        fs.load(man)
+    else:
+        data = b"".join(blocks)
+        ops += ["create,0,%s" % name, "write,0,%s" % data.hex(), rng.choice(["sync", "flush,@,1"])]
+        ino = Ino(False, name)
+        ino.data = bytearray(data)
+        fs.root.kids[name] = ino
+        fs.h["0"] = Hnd(ino, True, True, False)
+        fs.h["0"].pos = len(data)
+    ino = fs.root.kids[name]
+    nh = rng.choice([2, 2, 3, 4])
+    hs = []
+    for i in range(1, nh + 1):
+        fl = "Ba" if (i == nh and rng.random() < 0.3) else "B"
+        ops.append("open,%d,%s,%s" % (i, name, fl))
+        fs.h[str(i)] = Hnd(ino, True, True, fl == "Ba")
+        hs.append(str(i))
+    lim = maxb
+    n = rng.randint(12, 60 if tier == "quick" else 150)
+    for _ in range(n):
+        h = rng.choice(hs)
+        hd = fs.h[h]
+        r = rng.random()
+        if r < 0.38:
+            k = rng.choice([1, 1, 2, lim - 1, lim, lim + 1, rng.randint(1, 2 * lim)])
+            k = max(1, k)
+            ops.append("readn,%s,%d" % (h, k))
+            hd.pos = min(max(hd.pos, 0) + k, max(len(ino.data), hd.pos)) if hd.pos < len(ino.data) else hd.pos
+        elif r < 0.76:
+            k = rng.choice([1, 1, 2, lim - 1, lim, lim + 1, rng.randint(1, 2 * lim)])
+            data = bytes(rng.getrandbits(8) for _ in range(max(1, k)))
+            ops.append("write,%s,%s" % (h, data.hex()))
+            if hd.app:
+                hd.pos = len(ino.data)
+            if hd.pos > len(ino.data):
+                ino.data += bytes(hd.pos - len(ino.data))
+            ino.data[hd.pos:hd.pos + len(data)] = data
+            hd.pos += len(data)
+        elif r < 0.84:
+            t = rng.randint(0, len(ino.data) + 1)
+            ops.append("seek,%s,%d,0" % (h, t))
+            hd.pos = t
+        elif r < 0.89:
+            t = rng.randint(0, len(ino.data) + lim)
+            ops.append("trunc,%s,%d" % (h, t))
+            if t < len(ino.data):
+                del ino.data[t:]
+            else:
+                ino.data += bytes(t - len(ino.data))
+        elif r < 0.96:
+            ops.append(rng.choice(["sync", "flush,@,1", "flush,@,0", "hsync,%s" % h]))
+        else:
+            ops.append("hstat,%s" % h)
+    ops += ["open,900,%s,R" % name, "readn,900,100000", "hstat,900"]
+    return "fs %d %s %s" % (maxb, man, ";".join(ops))
+
+
+def _gen_async_focus_case(rng, tier):
+    """ASYNC FOCUS case: one or two files, writes / explicit flushes / truncates (mostly shrinking) /
+    reads while the Keep writes are parked and released at random points — the in-flight-flush class
+    (copy-on-write of a buffer shared with a flush, revalidation in commitBlock/pruneMemSegments)."""
+    maxb = rng.choice([4, 8, 8, 16, 16, 64])
+    names = [_name(rng)]
+    if rng.random() < 0.4:
+        names.append(_name(rng) + "x")
+    ops, size, pos, held = [], {}, {}, False
+    for i, nm in enumerate(names):
+        ops.append("create,%d,%s" % (i, nm))
+        size[i], pos[i] = 0, 0
+    for _ in range(rng.randint(8, 40 if tier == "quick" else 100)):
+        h = rng.randrange(len(names))
+        r = rng.random()
+        last = ops[-1].split(",")[0]
+        if r < 0.12 or (held and last == "trunc" and r < 0.5) or (not held and last == "write" and r < 0.3):
+            # (a flush should land soon after a truncate, and be parked soon after a write)
+            ops.append("release" if held else "hold")
+            held = not held
+        elif held and last == "flush" and r < 0.7:
+            t = rng.randint(0, size[h])
+            ops.append("trunc,%d,%d" % (h, t))
+            size[h] = t
+        elif r < 0.40:
+            k = rng.choice([2, 3, maxb - 1, maxb // 2 + 1, rng.randint(2, maxb - 1), rng.randint(2, maxb - 1), maxb, maxb + 1,
+                            rng.randint(1, 2 * maxb)])
+            data = bytes(rng.getrandbits(8) for _ in range(max(1, k)))
+            if rng.random() < 0.3:
+                pos[h] = rng.randint(0, size[h])
+                ops.append("seek,%d,%d,0" % (h, pos[h]))
+            ops.append("write,%d,%s" % (h, data.hex()))
+            pos[h] += len(data)
+            size[h] = max(size[h], pos[h])
+        elif r < 0.58 and last != "flush":
+            ops.append("flush,@,%d" % rng.choice([1, 1, 0]))
+        elif r < 0.80:
+            t = rng.randint(0, size[h]) if rng.random() < 0.85 else size[h] + rng.randint(0, maxb)
+            ops.append("trunc,%d,%d" % (h, t))
+            size[h] = t
+        elif r < 0.9:
+            k = rng.randint(1, size[h] + 2)
+            ops.append("seek,%d,0,0" % h)
+            ops.append("readn,%d,%d" % (h, k))
+            pos[h] = min(k, size[h])
+        else:
+            ops.append("hstat,%d" % h)
+    if "hold" not in ops:
+        ops.insert(len(names), "hold")
+    ops.append("release")
+    for i, nm in enumerate(names):
+        ops += ["open,%d,%s,R" % (900 + i, nm), "readn,%d,100000" % (900 + i), "hstat,%d" % (900 + i)]
+    return "fs %d - %s" % (maxb, ";".join(ops))
+
+
 def generate(rng, tier):
-    n = 500 if tier == "quick" else 12000
+    n = 420 if tier == "quick" else 10000
     cases = []
     for i in range(n):
         cases.append(_gen_case(rng, tier))
     # smoke cases at the production block size (small data only)
     for _ in range(3 if tier == "quick" else 30):
         cases.append(_gen_case(rng, tier, maxb=PROD, nops=rng.randint(10, 60)))
+    # FOCUS cases: several handles on one file with stored segments, reads/writes without seeks
+    for _ in range(80 if tier == "quick" else 2000):
+        cases.append(_gen_focus_case(rng, tier))
     # ASYNC cases: flush completions delayed across truncates/writes (no shapes compared, see driver)
-    for _ in range(60 if tier == "quick" else 1500):
+    for _ in range(100 if tier == "quick" else 2500):
         cases.append(_gen_case(rng, tier, maxb=rng.choice([2, 4, 7, 8, 16, 16, 64, 64]), nops=rng.randint(15, 80),
                                async_=True))
+    for _ in range(60 if tier == "quick" else 1500):
+        cases.append(_gen_async_focus_case(rng, tier))
     # a few histories with many renames of a path onto itself (finding F13, fixed by 100856b)
     for _ in range(3 if tier == "quick" else 40):
         cases.append(_gen_case(rng, tier, nops=rng.randint(10, 40), selfrename=True))
